@@ -163,6 +163,22 @@ pub fn run_case(c: &Case) -> Result<(), String> {
             let a: [u8; 4] = n.try_into().unwrap();
             bytes_kind!("[u8;4]", h, n, &a, &e)
         }
+        8 => {
+            let a: [u8; 8] = n.try_into().unwrap();
+            bytes_kind!("[u8;8]", h, n, &a, &e)
+        }
+        9 => {
+            let a: [u8; 9] = n.try_into().unwrap();
+            bytes_kind!("[u8;9]", h, n, &a, &e)
+        }
+        16 => {
+            let a: [u8; 16] = n.try_into().unwrap();
+            bytes_kind!("[u8;16]", h, n, &a, &e)
+        }
+        24 => {
+            let a: [u8; 24] = n.try_into().unwrap();
+            bytes_kind!("[u8;24]", h, n, &a, &e)
+        }
         _ => {}
     }
     if let Ok(ns) = std::str::from_utf8(n) {
